@@ -317,6 +317,51 @@ func (s *Solver) Values(vars []*Term) map[string]*big.Int {
 	return res
 }
 
+// EvalBool evaluates a Boolean term in the current model (right after a Sat result, before Pop).
+func (s *Solver) EvalBool(t *Term) (val, ok bool) {
+	if s.usedFallback {
+		return s.fallback.EvalBool(t)
+	}
+	if t.IsTrue() {
+		return true, true
+	}
+	if t.IsFalse() {
+		return false, true
+	}
+	ref := s.pr.Define(t)
+	s.send(s.pr.Flush())
+	s.send(fmt.Sprintf("(get-value (%s))\n", ref))
+	txt := strings.TrimSpace(s.readSexp())
+	if strings.Contains(txt, "error") {
+		return false, false
+	}
+	return strings.HasSuffix(txt, " true))"), true
+}
+
+// candidateHits records, for every BlobLike value of the state, which candidate the current model makes it equal to.
+func candidateHits(s *Solver, st *State, model map[string]*big.Int) {
+	idx := map[string]int{}
+	for _, nd := range st.nondet {
+		if nd.Kind != "blob" && nd.Kind != "bytes" {
+			continue
+		}
+		k := idx[nd.Name]
+		idx[nd.Name] = k + 1
+		if nd.Kind != "blob" {
+			continue
+		}
+		for i, c := range nd.Many {
+			if c == nil {
+				continue
+			}
+			if v, ok := s.EvalBool(Eq(nd.Term, c)); ok && v {
+				model[fmt.Sprintf("%s[]#%d@cand", nd.Name, k)] = big.NewInt(int64(i))
+				break
+			}
+		}
+	}
+}
+
 func (s *Solver) readSexp() string {
 	depth := 0
 	var sb strings.Builder
